@@ -432,8 +432,10 @@ func (r *run) answerCmd(p *simmongo.Pending, faults []MongoFault) {
 	w.mongo.Answer(p, kind)
 }
 
+var noClip = os.Getenv("VERIF_NOCLIP") != ""
+
 func clip(s string, n int) string {
-	if len(s) > n {
+	if len(s) > n && !noClip {
 		return s[:n] + "…"
 	}
 	return s
